@@ -46,6 +46,8 @@ def mutants(prog):
         ("evaluate: interleave order", B, "evaluate_cubic_bspline", "output = output.transpose(2, 3).flatten(2, 3)", "output = output.flatten(2, 3)", "T3.evaluate"),
         ("ffd refine crop", S, "BSplineTransform.grid_", "new_params = new_params.narrow(dim, 1, new_shape[dim])", "new_params = new_params.narrow(dim, 0, new_shape[dim])", "T6x.regrid"),
         ("bspline derivative: spacing power dropped", "deepali.core.image", "spatial_derivatives", "denom.mul_(delta.pow(d))", "denom.mul_(delta)", "T5.bspline"),
+        ("subdivide: falsy dims treated as None", B, "subdivide_cubic_bspline", "if dims is None:", "if not dims:", "T3.subdivide"),
+        ("ffd update: spline evaluated before the parameters are refreshed", S, "FreeFormDeformation.update", "super().update()\n    u = self.evaluate_spline()\n    self.register_buffer('u', u, persistent=False)\n    return self", "u = self.evaluate_spline()\n    self.register_buffer('u', u, persistent=False)\n    return super().update()", "T6x."),
     ]
     for name, mod, fn, old, new, expect in specs:
         ov = source_sub(prog, mod, fn, old, new)
